@@ -11,6 +11,7 @@ import SfntV.Model.CffCharset
 import SfntV.Model.CffFdselect
 import SfntV.Model.CffEncoding
 import SfntV.Model.CffStrings
+import SfntV.Model.CffRead
 
 namespace SfntV.Cff
 open SfntV
@@ -28,7 +29,30 @@ structure PrivIn where
   blueShift : Int
   blueFuzz : Int
   forceBold : Bool
+  blueScale : Rl := (false, 39625, -6)
+  stdHW : Rl := Rl.zero
+  stdVW : Rl := Rl.zero
 deriving Repr
+
+/-- a `float64` DICT operand given by its decimal value (at most nine significant digits):
+the nine-digit mantissa and decimal-point position `encodeFloat` derives from it -/
+def realOperand (d : Rl) : Operand :=
+  if d.2.1 = 0 then .real false 0 0
+  else
+    let dd := numDigits d.2.1
+    .real d.1 (d.2.1 * 10 ^ (9 - dd)) ((dd : Int) + d.2.2)
+
+/-- `math.Abs(x - y) > 10^k` on exact decimals (`k ≤ 0`) -/
+def farApart (x y : Rl) (k : Int) : Bool :=
+  let s0 := Rl.minExp x y
+  let s := if s0 ≤ k then s0 else k
+  let diff := (x.scaled s - y.scaled s).natAbs
+  decide (diff > 10 ^ (k - s).toNat)
+
+/-- `setFontMatrix`: the six reals, if some entry differs from the default by more than 1e-5 -/
+def fontMatrixEntry (fm : List Rl) (isCID : Bool) : List (Nat × List Operand) :=
+  let dflt := if isCID then identityFM else defaultFM
+  if (fm.zip dflt).any (fun p => farApart p.1 p.2 (-5)) then [(3079, fm.map realOperand)] else []
 
 structure FontIn where
   fontName : Bytes
@@ -47,23 +71,32 @@ structure FontIn where
   charStrings : List Bytes
   defWidth : Int              -- int32(defaultWidth), 0 = omitted
   nomWidth : Int
+  italicAngle : Rl := Rl.zero
+  fontMatrix : Option (List Rl) := none      -- none: the default for the kind of font
+  fdMatrices : List (List Rl) := []          -- CID-keyed fonts; missing entries: the default
 deriving Repr
 
-/-- `setDeltaF16`: first value as is, then differences (int16 arithmetic does not wrap in the
-domain) -/
+/-- `setDeltaF16`: `int32(x - prev)` with the subtraction in `funit.Int16` (int16) arithmetic -/
 def deltas : Int → List Int → List Operand
   | _, [] => []
-  | prev, x :: xs => .int (x - prev) :: deltas x xs
+  | prev, x :: xs => .int (toI16 ((x - prev) % 65536).toNat) :: deltas x xs
 
-/-- `makePrivateDict` without opSubrs (BlueScale at its default, StdHW = StdVW = 0) -/
+/-- a DICT entry that is present only under a condition -/
+def optEntry (c : Bool) (op : Nat) (args : List Operand) : List (Nat × List Operand) :=
+  if c then [(op, args)] else []
+
+/-- `makePrivateDict` without opSubrs -/
 def makePrivateDict (p : PrivIn) (dw nw : Int) : List (Nat × List Operand) :=
-  (if p.blueValues.isEmpty then [] else [(6, deltas 0 p.blueValues)]) ++
-  (if p.otherBlues.isEmpty then [] else [(7, deltas 0 p.otherBlues)]) ++
-  (if p.blueShift ≠ 7 then [(3082, [.int p.blueShift])] else []) ++
-  (if p.blueFuzz ≠ 1 then [(3083, [.int p.blueFuzz])] else []) ++
-  (if p.forceBold then [(3086, [.int 1])] else []) ++
-  (if dw ≠ 0 then [(20, [.int dw])] else []) ++
-  (if nw ≠ 0 then [(21, [.int nw])] else [])
+  optEntry (!p.blueValues.isEmpty) 6 (deltas 0 p.blueValues) ++
+  optEntry (!p.otherBlues.isEmpty) 7 (deltas 0 p.otherBlues) ++
+  optEntry (decide (p.blueShift ≠ 7)) 3082 [.int p.blueShift] ++
+  optEntry (decide (p.blueFuzz ≠ 1)) 3083 [.int p.blueFuzz] ++
+  optEntry p.forceBold 3086 [.int 1] ++
+  optEntry (farApart p.blueScale (false, 39625, -6) (-6)) 3081 [realOperand p.blueScale] ++
+  optEntry (decide (p.stdHW.2.1 ≠ 0)) 10 [realOperand p.stdHW] ++
+  optEntry (decide (p.stdVW.2.1 ≠ 0)) 11 [realOperand p.stdVW] ++
+  optEntry (decide (dw ≠ 0)) 20 [.int dw] ++
+  optEntry (decide (nw ≠ 0)) 21 [.int nw]
 
 /-- string operands become SIDs at encode time (`ss.lookup`); the custom strings grow -/
 def resolveArgs (std : List String) : List String → List Operand → List Operand × List String
@@ -103,6 +136,7 @@ structure Fixed where
   custom0 : List String       -- strings allocated before the loop
   topBase : List (Nat × List Operand)
   privBase : List (List (Nat × List Operand))
+  fdBase : List (List (Nat × List Operand))   -- Font DICT entries other than Private
 deriving Repr
 
 /-- section numbers -/
@@ -135,6 +169,7 @@ def prepare (std : List String) (f : FontIn) : Outcome (Fixed × Secs) :=
     | none => []
   let top0 := strOp 0 0 ++ strOp 1 1 ++ strOp 3072 2 ++ strOp 2 3 ++ strOp 3 4 ++ strOp 4 5 ++
     (if f.isFixedPitch then [(3073, [.int 1])] else []) ++
+    (if f.italicAngle.2.1 ≠ 0 then [(3074, [realOperand f.italicAngle])] else []) ++
     (if f.ulPosDefault then [] else [(3075, [f.ulPos])]) ++
     (if f.ulThickDefault then [] else [(3076, [f.ulThick])])
   -- ROS strings are looked up first
@@ -142,8 +177,9 @@ def prepare (std : List String) (f : FontIn) : Outcome (Fixed × Secs) :=
     | some (r, o, sup) =>
       let (sr, c1) := stringsLookup std [] r
       let (so, c2) := stringsLookup std c1 o
-      (top0 ++ [(3102, [.int sr, .int so, .int sup]), (3106, [.int (numGlyphs % 65536)])], c2)
-    | none => (top0, [])
+      (top0 ++ [(3102, [.int sr, .int so, .int sup]), (3106, [.int (numGlyphs % 65536)])]
+        ++ fontMatrixEntry (f.fontMatrix.getD identityFM) true, c2)
+    | none => (top0 ++ fontMatrixEntry (f.fontMatrix.getD defaultFM) false, [])
   -- glyph names
   let (glyphNames, custom2) : List Int × List String := match f.ros with
     | some _ => ([], custom1)
@@ -172,7 +208,9 @@ def prepare (std : List String) (f : FontIn) : Outcome (Fixed × Secs) :=
       .ok ({ nameIndex := outOk (indexEncode [f.fontName]), encoding := encB, charsets := cs,
              fdSelect := if f.ros.isSome then some (fdEncode f.fds) else none,
              charStrings := outOk (indexEncode f.charStrings), custom0 := custom2, topBase := top2,
-             privBase := f.privs.map fun p => makePrivateDict p f.defWidth f.nomWidth },
+             privBase := f.privs.map fun p => makePrivateDict p f.defWidth f.nomWidth,
+             fdBase := (List.range f.privs.length).map fun i =>
+               fontMatrixEntry (f.fdMatrices.getD i defaultFM) false },
            mkSecs f encB.isSome)
 
 /-- one pass of the loop body: all blobs as a function of the current offsets -/
@@ -185,7 +223,7 @@ def mkBlobs (std : List String) (isCID : Bool) (fx : Fixed) (sc : Secs) (offs : 
   let pdDesc (i : Nat) : List Operand := [.int ((privBlobs.getD i []).length), .int (off (sc.priv0 + i))]
   let fontDictIndex : Bytes :=
     if isCID then outOk (indexEncode ((List.range fx.privBase.length).map fun i =>
-      (encodeDictS std [] [(18, pdDesc i)]).1))
+      (encodeDictS std [] ((fx.fdBase.getD i []) ++ [(18, pdDesc i)])).1))
     else []
   let top := fx.topBase ++
     (if isCID then [] else
